@@ -336,6 +336,11 @@ pub fn random_plan(rng: &mut Rng, max_depth: usize) -> ExPlan {
         let len = plan.stream().len();
         plan.paced_cuts = random_paced_cuts(rng, len);
         plan.paced_gaps_ms = random_paced_gaps(rng);
+    } else if plan.fault.is_empty() && rng.pct(4) {
+        // one read fails with a transient error somewhere in the stream: carried on, or failed there
+        let len = (plan.stream().len() - plan.tail.len()) as u64;
+        plan.read_errs = vec![(rng.below(len + 1) as u32, rng.below(3) as u8)];
+        plan.fault = "read_err".into();
     }
     plan
 }
@@ -364,6 +369,11 @@ pub fn shrink_explan(plan: &ExPlan) -> Vec<ExPlan> {
     if !plan.paced_gaps_ms.is_empty() {
         let mut p = plan.clone();
         p.paced_gaps_ms.clear();
+        push(p);
+    }
+    if !plan.read_errs.is_empty() {
+        let mut p = plan.clone();
+        p.read_errs.clear();
         push(p);
     }
     if plan.mode != Mode::Lockstep {
